@@ -22,6 +22,21 @@ CLAIMED = {
              "np.argsort/np.unique modelled as a stable sort; float quantisation only via correspondence. "
              "Known findings: two blocks(wrap=True) defects.",
         technique="Lean 4 proof over hand-written executable model + differential correspondence (line protocol)"),
+    "C13": dict(
+        category="proof", design_ref="DESIGN.md 5 C13",
+        text="Lean 4 theorems for every sequence and every count width m>=1 over an executable model of "
+             "voxel/runlength.py: RLE and BRLE encode/decode round trips with all counts fitting the dtype, "
+             "re-encoding (merge+split) and RLE<->BRLE conversion preserve the decoded sequence, and logical_not, "
+             "reverse, gather, mask, to_sparse, strip, length on encoded data equal the dense numpy operation; "
+             "binvox body codec (uint8 counts) lossless. The model is tied to the code by an exact differential "
+             "run (encoded arrays compared element by element, long runs at the dtype limits, list/array, "
+             "sorted/unsorted/repeated indices). The lazy Encoding classes/views, the voxel grid index<->point "
+             "maps, volume and binvox export/reload are checked against the dense specification by the "
+             "correspondence only (partial).",
+        note="Trusted: Lean kernel (+propext/Classical.choice/Quot.sound), the Python harness, numpy as the dense "
+             "specification. Not proved: the Encoding view classes (27 known findings list their broken reads by "
+             "(encoding, read, failure kind, view)), VoxelGrid transforms.",
+        technique="Lean 4 proof over hand-written executable model + differential correspondence (line protocol)"),
 }
 
 NOT_YET = "check not built yet in this build phase (DESIGN.md section 9 gives the order); no claim is made"
